@@ -106,6 +106,33 @@ def formulas(tier):
             for op in ("-", "+", "*", ":", "/"):
                 yield {"resp": True, "items": [("T", "+", ("B", op, left, right))]}
     yield {"resp": True, "items": [("T", "+", ("B", "+", L, L)), ("T", "+", L), ("T", "-", ("B", "+", L, L))]}
+    # 1c. one operator applied to two operands in normal form (a sum of interactions): the
+    # inductive-step view of the algebra -- every model is such a sum, so together with the
+    # obligation that the result is again duplicate-free this covers operands of any history
+    def inter_(k):
+        t = L
+        for _ in range(k - 1):
+            t = ("B", ":", t, L)
+        return t
+
+    def nf(profile):
+        t = inter_(profile[0])
+        for k in profile[1:]:
+            t = ("B", "+", t, inter_(k))
+        return t
+
+    profiles = {1: [(1,)], 2: [(2,), (1, 1)], 3: [(3,), (1, 2), (2, 1), (1, 1, 1)]}
+    if tier == "quick":
+        nfpairs = [((1, 2), (1, 1)), ((1, 1), (2, 1)), ((1, 1, 1), (1, 1))]
+    else:
+        nfpairs = [(p, q) for a in (2, 3) for b in (2, 3) if a + b >= 5 for p in profiles[a] for q in profiles[b]]
+    for p, q in nfpairs:
+        for op in BIN:
+            yield {"resp": True, "items": [("T", "+", ("B", op, nf(p), nf(q)))]}
+    if tier != "quick":
+        for p in [(1, 1, 1, 1), (1, 1, 2), (2, 1, 1), (1, 2, 2), (2, 2, 1)]:
+            for n in (2, 3):
+                yield {"resp": True, "items": [("T", "+", ("P", nf(p), n))]}
     # 2. chains of small items with literals
     small = [("T", op, sh) for op in "+-" for n in (1, 2) for sh in tsh[n] if n == 1 or sh[0] == "B" and sh[1] in ":*"]
     lits = [("lit", op, v) for op, v in LITS]
